@@ -2,7 +2,7 @@ import GT.Base.JsonQ
 import GT.Base.QSqrt
 import GT.Model.Dtype
 import GT.Model.Rescale
-open Lean GT.J GT GT.Dtype
+open Lean GT.J GT GT.Dtype GT.Rescale
 namespace GT.Driver.C12
 
 /-! ### dtype decision model -/
